@@ -528,6 +528,12 @@ def _adj_case(rs, sr, pattern, template, Rsets, sizes, transform, repeat):
                     ren.append(("q", w))
                 leaves[li] = spec
                 occs[k] = ("ren", li, tuple(ren))
+            elif transform == "diag":
+                # the leaf has two inputs p, q of the same size, both renamed to v: the substitution k -> (k, k)
+                spec[ax] = ("p", m)
+                spec.append(("q", m))
+                leaves[li] = spec
+                occs[k] = ("diag", li, ("p", "q"), v)
             elif transform == "slice":
                 start = int(rs.randint(0, 2))
                 step = int(rs.randint(1, 3))
@@ -577,6 +583,8 @@ def _adj_free(case):
         if o[0] == "ren":
             m = dict(o[2])
             return {m.get(n, n) for n, _ in leaves[o[1]]}
+        if o[0] == "diag":
+            return {o[3] if n in o[2] else n for n, _ in leaves[o[1]]}
         if o[0] in ("slice", "take"):
             return {o[3] if n == o[2] else n for n, _ in leaves[o[1]]}
         return {o[3] if n == o[2] else n for n, _ in leaves[o[1][0]]}
@@ -626,7 +634,7 @@ def cases_c11(tier, seed):
                 variants = [(None, False)]
                 u = rs.rand()
                 if u < (0.4 if quick else 0.6):
-                    variants.append((["ren", "slice", "take", "cat"][rs.randint(4)], False))
+                    variants.append((["ren", "slice", "take", "cat", "diag"][rs.randint(5)], False))
                 if len(pat) >= 2 and rs.rand() < (0.15 if quick else 0.3):
                     variants.append((None, True))
                 for transform, repeat in variants:
@@ -665,6 +673,8 @@ def _adj_reduces_ok(case):
         if o[0] == "ren":
             m = dict(o[2])
             return {m.get(n, n) for n, _ in leaves[o[1]]}
+        if o[0] == "diag":
+            return {o[3] if n in o[2] else n for n, _ in leaves[o[1]]}
         if o[0] in ("slice", "take"):
             return {o[3] if n == o[2] else n for n, _ in leaves[o[1]]}
         if o[0] == "cat":
